@@ -5,11 +5,15 @@ package godi
 // when the real code exhibits the violation named by the obligation it replays.
 
 import (
+	"bytes"
 	"context"
 	"errors"
 	"fmt"
+	"runtime"
+	"sync"
 	"sync/atomic"
 	"testing"
+	"time"
 )
 
 type rpDisp struct {
@@ -364,5 +368,158 @@ func TestReplay_ResolutionOverlappingCloseReportsDisposed(t *testing.T) {
 			t.Errorf("REPLAY-CONFIRMED scope.resolve#post[overlapping_close_reports_the_disposed_error]: %v: unexpected error %v", lt, rerr)
 		}
 		p.Close()
+	}
+}
+
+type rpSlowChild struct {
+	done atomic.Bool
+	log  *[]string
+	mu   *sync.Mutex
+}
+
+// closed from the parent's Close (two nested (*scope).Close frames) quickly, from the scope's own context watcher slowly
+func (r *rpSlowChild) Close() error {
+	buf := make([]byte, 1<<14)
+	buf = buf[:runtime.Stack(buf, false)]
+	if bytes.Count(buf, []byte("(*scope).Close(")) >= 2 {
+		time.Sleep(5 * time.Millisecond)
+	} else {
+		time.Sleep(200 * time.Millisecond)
+	}
+	r.done.Store(true)
+	r.mu.Lock()
+	*r.log = append(*r.log, "child")
+	r.mu.Unlock()
+	return errors.New("child close failed")
+}
+
+type rpParentRes struct {
+	log *[]string
+	mu  *sync.Mutex
+}
+
+func (r *rpParentRes) Close() error {
+	r.mu.Lock()
+	*r.log = append(*r.log, "parent")
+	r.mu.Unlock()
+	return nil
+}
+
+// scope.Close#post[own_context_cancelled_after_the_children_are_closed]: one Close call on a scope whose children share its context
+// (CreateScope(nil)). Close cancelled the scope's own context first; that woke the watcher goroutine of every child, the watchers won
+// the race for the children's Close, the parent's own loop got nil at once from each child and went on: Close returned while child
+// instances were still open, the parent disposed its own instance before its children were disposed, and the children's errors were lost.
+func TestReplay_CloseWaitsForChildrenSharingItsContext(t *testing.T) {
+	const n = 6
+	var mu sync.Mutex
+	var log []string
+	var all []*rpSlowChild
+	c := NewCollection()
+	c.AddScoped(func() *rpSlowChild {
+		r := &rpSlowChild{log: &log, mu: &mu}
+		mu.Lock()
+		all = append(all, r)
+		mu.Unlock()
+		return r
+	})
+	c.AddScoped(func() *rpParentRes { return &rpParentRes{log: &log, mu: &mu} })
+	p, err := c.Build()
+	if err != nil {
+		t.Fatal(err)
+	}
+	parent, err := p.CreateScope(context.Background())
+	if err != nil {
+		t.Fatal(err)
+	}
+	if _, err := Resolve[*rpParentRes](parent); err != nil {
+		t.Fatal(err)
+	}
+	for i := 0; i < n; i++ {
+		child, err := parent.CreateScope(nil)
+		if err != nil {
+			t.Fatal(err)
+		}
+		if _, err := Resolve[*rpSlowChild](child); err != nil {
+			t.Fatal(err)
+		}
+	}
+	closeErr := parent.Close() // the only Close call, from this goroutine
+	pending := 0
+	for _, r := range all {
+		if !r.done.Load() {
+			pending++
+		}
+	}
+	mu.Lock()
+	before := 0
+	for _, e := range log {
+		if e == "parent" {
+			break
+		}
+		before++
+	}
+	mu.Unlock()
+	var de *DisposalError
+	reported := 0
+	if errors.As(closeErr, &de) {
+		reported = len(de.Errors)
+	}
+	if pending != 0 || before != n || reported != n {
+		t.Errorf("REPLAY-CONFIRMED scope.Close#post[own_context_cancelled_after_the_children_are_closed]: Close returned while %d of %d child instances were still open; the parent's own instance was disposed after %d of %d children; %d of %d child failures were reported", pending, n, before, n, reported, n)
+	}
+	time.Sleep(250 * time.Millisecond)
+	p.Close()
+}
+
+type rpCfg struct{}
+
+// scope.resolve#post[singleton_miss_on_a_closed_provider_reports_the_disposed_error]: a scope creation that overlaps provider.Close. The scope
+// under creation is not yet known to the provider, so Close cannot close it; its remaining initializers resolve against a provider whose
+// singletons are gone and reported "singleton not initialized at build time" - neither of the disposed errors was in the chain.
+func TestReplay_CreateScopeOverlappingProviderClose(t *testing.T) {
+	for _, viaChild := range []bool{false, true} {
+		block := false
+		entered, release := make(chan struct{}), make(chan struct{})
+		c := NewCollection()
+		c.AddSingleton(func() *rpCfg { return &rpCfg{} })
+		c.AddScoped(func() {
+			if block {
+				close(entered)
+				<-release
+			}
+		})
+		c.AddScoped(func(cfg *rpCfg) {})
+		p, err := c.Build()
+		if err != nil {
+			t.Fatal(err)
+		}
+		var parent Scope
+		if viaChild {
+			if parent, err = p.CreateScope(context.Background()); err != nil {
+				t.Fatal(err)
+			}
+		}
+		block = true
+		errCh := make(chan error, 1)
+		go func() {
+			var err error
+			if viaChild {
+				_, err = parent.CreateScope(context.Background())
+			} else {
+				_, err = p.CreateScope(context.Background())
+			}
+			errCh <- err
+		}()
+		<-entered
+		if err := p.Close(); err != nil {
+			t.Fatal(err)
+		}
+		close(release)
+		err = <-errCh
+		if err == nil {
+			t.Errorf("REPLAY-CONFIRMED scope.resolve#post[singleton_miss_on_a_closed_provider_reports_the_disposed_error]: a scope was created on a closed provider")
+		} else if !errors.Is(err, ErrProviderDisposed) && !errors.Is(err, ErrScopeDisposed) {
+			t.Errorf("REPLAY-CONFIRMED scope.resolve#post[singleton_miss_on_a_closed_provider_reports_the_disposed_error]: viaChild=%v: CreateScope overlapping provider.Close did not report a disposed error: %v", viaChild, err)
+		}
 	}
 }
